@@ -172,6 +172,38 @@ Theorem C01_typed_whole_round_trip : forall r ext vals a a' o,
 Proof. exact typed_whole_round_trip. Qed.
 Print Assumptions C01_typed_whole_round_trip.
 
+(** further public routes.  Create-and-fill (template Block::createDataArray(name, type, data, data_type,
+    compression)): success refines the specification; failure means "no array" in the specification, and in
+    the model as soon as the creation is rolled back ([create_fill_rolls_back], false on the pinned tree:
+    the array stays behind - reported by the correspondence run) *)
+Theorem C01_create_fill_refines : forall b elem stored c r ext vals,
+  shape_ok (route_shape r ext) ->
+  match create_fill b elem stored c r ext vals with
+  | (Some a, Ok _) => exists h, spec_create_fill elem stored r ext vals = Some h /\ R (mkSt a (Some RW)) h
+  | (oa, _) => spec_create_fill elem stored r ext vals = None /\ (b = true -> oa = None)
+  end.
+Proof. exact create_fill_refines. Qed.
+Print Assumptions C01_create_fill_refines.
+
+Theorem C01_create_fill_round_trip : forall b t c r ext vals a,
+  shape_ok (route_shape r ext) ->
+  create_fill b t t c r ext vals = (Some a, Ok tt) ->
+  a_shape a = route_shape r ext /\ (Forall (fun v => conv_val t t v = Ok v) vals) /\
+  read_slab a (repeat 0 (List.length (route_shape r ext))) (route_shape r ext) = Ok vals.
+Proof. exact create_fill_round_trip. Qed.
+Print Assumptions C01_create_fill_round_trip.
+
+(** NDArray::get / set by NDSize index: the row-major position inside the box *)
+Theorem C01_nd_index_in_box : forall sh i, in_box sh i = true -> nd_index sh i = Ok (ravel sh i).
+Proof. exact nd_index_in_box. Qed.
+Print Assumptions C01_nd_index_in_box.
+
+(** string_to_data_type inverts data_type_to_string on every name the library prints *)
+Theorem C01_dtype_names_round_trip :
+  forallb (fun n => match string_to_dtype_name n with Ok m => String.eqb m n | _ => false end) dtype_names = true.
+Proof. exact dtype_names_round_trip. Qed.
+Print Assumptions C01_dtype_names_round_trip.
+
 (** * Non-vacuity and witnesses (all by computation) *)
 
 Definition ex_ops : list op :=
@@ -250,3 +282,13 @@ Example C01_multi_array_extent_not_truncated :
   route_op (RMulti 1) [3] (TSetAll [300] (repeat (VI 1) 300)) = Ok (OWriteAll [300] (repeat (VI 1) 300)) /\
   a_shape (disk (fst (step (start TInt8 CNone [3]) (OWriteAll [300] (repeat (VI 1) 300))))) = [300].
 Proof. split; vm_compute; reflexivity. Qed.
+
+(** create-and-fill with a type the elements cannot be converted to (std::vector<double> stored as String):
+    the specification has no array; on the pinned tree the array is left behind, after the repair it is not *)
+Example C01_create_fill_trace :
+  spec_create_fill TDouble TString RVector [2] [VI 0; VI 0] = None /\
+  (match create_fill false TDouble TString CNone RVector [2] [VI 0; VI 0] with (Some a, Err _) => a_shape a = [2] | _ => False end) /\
+  fst (create_fill true TDouble TString CNone RVector [2] [VI 0; VI 0]) = None /\
+  (match create_fill create_fill_rolls_back TInt32 TInt8 CNone (RMulti 1) [3] [VI 1; VI 300; VI (-300)] with
+   | (Some a, Ok _) => a_cells a = [VI 1; VI 127; VI (-128)] | _ => False end).
+Proof. vm_compute. repeat split. Qed.
